@@ -203,8 +203,8 @@ omit hg in
 /-- `calleeTailParser` consumes the member name -/
 theorem calleeTail_sat {hasRoot : Bool} {rootType : Nat} {root : Expr} {s : PState σ} {Q : Expr → PState σ → Prop} {F : Prop}
     (hs : Inv ops B I s)
-    (hk : ∀ i s', Inv ops B I s' → m μ s' < m μ s → q s' = 1 →
-      Q (.member 0 rootType (if hasRoot then root else .nil) cMemberID (some i) .nil) s')
+    (hk : ∀ i l s', Inv ops B I s' → m μ s' < m μ s → q s' = 1 →
+      Q (.member l rootType (if hasRoot then root else .nil) cMemberID (some i) .nil) s')
     (hF : n ≤ m μ s → F) :
     Sat (calleeTail Variant.fixed ops n hasRoot rootType root s) Q (ErrOK B) F := by
   unfold calleeTail
@@ -216,8 +216,10 @@ theorem calleeTail_sat {hasRoot : Bool} {rootType : Nat} {root : Expr} {s : PSta
     simp only [sat_bind]
     apply newID_sat
     intro i
+    apply lineOf_sat
+    intro l
     simp only [sat_pure]
-    exact hk i s1 hi1 hm1 hq1
+    exact hk i l s1 hi1 hm1 hq1
   · exact hF
 
 theorem pMember_good (s : PState σ) (hs : Inv ops B I s) :
@@ -237,7 +239,7 @@ theorem pMember_good (s : PState σ) (hs : Inv ops B I s) :
   · intro tk s1 hi1 hm1 hq1 _ _
     simp only [sat_bind]
     apply calleeTail_sat hl hi1
-    · intro i s2 hi2 hm2 hq2
+    · intro i _ s2 hi2 hm2 hq2
       apply hg.callN (.memberTail _) hi2 (by exact .memberThis _ _)
       · intro r s3 hi3 hm3 hq3 hc3
         exact post_lt hi3 (by omega) (by omega) hc3
@@ -308,7 +310,7 @@ theorem pMemberTail_good (e : Expr) (s : PState σ) (hs : Inv ops B I s) (hpre :
       refine ⟨fun _ => ?_, fun _ => errPeek_sat hi1 (by decide)⟩
       simp only [sat_bind]
       apply calleeTail_sat hl hi1
-      · intro i s2 hi2 hm2 hq2
+      · intro i _ s2 hi2 hm2 hq2
         apply hg.callN (.memberTail _) hi2 (by exact .memberDot _ _ _ hpre)
         · intro r s3 hi3 hm3 hq3 hc3
           exact post_le rfl hi3 (by omega) (by have := q_le_one s; omega) (fun h => h.elim) hc3
